@@ -312,6 +312,10 @@ class Builder:
             return t[prog[2] : prog[3]]
         if op == "mat":
             return t.materialized(name=prog[2])
+        if op == "mark":
+            from .ext import Tagged
+
+            return Tagged(target=t, label=prog[2])
         if op == "xfer":
             return t.transferred_to(E[prog[2]])
         raise AssertionError(prog)
